@@ -380,6 +380,10 @@ func (x *Exec) havocMods(st *State, ms *ModSet) {
 		x.c.havocAll(st)
 		return
 	}
+	if ms.Reads {
+		// the callee may have read input: the ghost tape cursor moves forward
+		x.c.havocTpos(st, x.c.region(st, "$tpos"))
+	}
 	rs := make([]string, 0, len(ms.Regions))
 	for r := range ms.Regions {
 		rs = append(rs, r)
@@ -619,6 +623,7 @@ func (x *Exec) invoke(st *State, cc *ssa.CallCommon, recv Val, args []Val, pos t
 			sOff(p.S), sOff(p.S), n, na, old, na))
 		c.setRegion(st, r, ite(eq(sRef(p.S), "0"), h, sx("store", h, sRef(p.S), na)))
 		c.havocRegion(st, "$alloc")
+		x.tapeDeliver(st, na, sOff(p.S), n)
 		errv := c.freshSort("err", "Iface")
 		c.note("trusted: io.Reader.Read obeys its interface contract (0<=n<=len(p), writes only p[:n]) and does not touch the caller's private state")
 		intT := types.Typ[types.Int]
@@ -714,6 +719,22 @@ func (x *Exec) externalCall(st *State, fn *ssa.Function, args []Val, pos token.P
 	return x.results(st, resT, "x_"+san(fn.Name()))
 }
 
+// tapeDeliver: ghost input tape.  gtape is the sequence of all bytes that the
+// underlying readers deliver, in the order of delivery; $tpos is the number of
+// bytes delivered so far.  A read that returns n bytes delivers gtape[tpos,
+// tpos+n) and advances the cursor.  (A history variable: any actual behaviour
+// of the readers is described by some gtape.)
+func (x *Exec) tapeDeliver(st *State, arr, off, n string) {
+	c := x.c
+	c.declareFun("gtape", []string{"Int"}, c.intSort(8))
+	tp := c.region(st, "$tpos")
+	c.assume(fmt.Sprintf("(forall ((i Int)) (! (=> (and (<= 0 i) (< i %s)) (= (select %s (+ %s i)) (gtape (+ %s i)))) :pattern ((gtape (+ %s i)))))", n, arr, off, tp, tp))
+	c.assume(fmt.Sprintf("(forall ((i Int)) (! (=> (and (<= %s i) (< i (+ %s %s))) (= (select %s i) (gtape (+ %s (- i %s))))) :pattern ((select %s i))))", off, off, n, arr, tp, off, arr))
+	st.cells["$tpos"] = Val{S: c.def("tpos", "Int", sx("+", tp, n))}
+	c.assume(and(sx("<=", "0", tp), sx("<=", sx("+", tp, n), tposMax)))
+	c.note("ghost input tape: fewer than 2^62 input bytes are delivered in total")
+}
+
 type intrinsic func(x *Exec, st *State, fn *ssa.Function, args []Val, pos token.Pos, resT *types.Tuple) Val
 
 var intrinsics = map[string]intrinsic{}
@@ -735,6 +756,7 @@ func init() {
 			sOff(p.S), sOff(p.S), n, na, old, na))
 		c.setRegion(st, r, ite(eq(sRef(p.S), "0"), h, sx("store", h, sRef(p.S), na)))
 		c.havocRegion(st, "$alloc")
+		x.tapeDeliver(st, na, sOff(p.S), n)
 		errv := c.freshSort("err", "Iface")
 		c.assume(eq(eq(errv, "I_nil"), eq(n, sLen(p.S))))
 		c.note("trusted: io.ReadFull(r, buf) returns 0<=n<=len(buf), err==nil <=> n==len(buf), writes only buf[:n]; the reader does not touch the caller's private state")
